@@ -514,7 +514,7 @@ def run_refit(case, fam):
     case.sample(dict(family=fam, histories=len(paths)))
 
 
-def caltrack_state_scenario(first, first_usage, second, second_usage, ctor_usage, elec):
+def caltrack_state_scenario(first, first_usage, second, second_usage, ctor_usage, elec, holes=False):
     """CalTRACK hourly family: predict() leaves the model's stored form alone, a prediction does not depend on what was
     predicted before with the same object, predict() leaves the data object's frame alone, and the data classes leave the
     caller's frame alone"""
@@ -522,7 +522,7 @@ def caltrack_state_scenario(first, first_usage, second, second_usage, ctor_usage
     logging.disable(logging.CRITICAL)
     from . import caltrackref as CT
     pr = []
-    m = CT.model()
+    m = CT.model(holes=holes)  # holes: segments without baseline data (null occupancy columns), as after a short baseline
     doc0 = m.to_json()
     a = CT.reporting(first, first_usage)
     fa = a.df.copy(deep=True)
@@ -532,7 +532,7 @@ def caltrack_state_scenario(first, first_usage, second, second_usage, ctor_usage
     if m.to_json() != doc0:
         pr.append(f"the model serialises differently after predicting {first}")
     got = m.predict(CT.reporting(second, second_usage))
-    want = CT.model().predict(CT.reporting(second, second_usage))
+    want = CT.model(holes=holes).predict(CT.reporting(second, second_usage))
     for col in ("predicted", "predicted_uncertainty"):
         if list(got.index) != list(want.index) or not CT.same(got[col], want[col]):
             pr.append(f"{col} for {second} depends on having predicted {first} before")
@@ -551,7 +551,7 @@ def caltrack_state_scenario(first, first_usage, second, second_usage, ctor_usage
 
 
 def replay_caltrack_state(inp):
-    pr = caltrack_state_scenario(inp["first"], inp["first_usage"], inp["second"], inp["second_usage"], inp["ctor_usage"], inp["elec"])
+    pr = caltrack_state_scenario(inp["first"], inp["first_usage"], inp["second"], inp["second_usage"], inp["ctor_usage"], inp["elec"], inp.get("holes", False))
     return bool(pr), "; ".join(pr[:3])
 
 
@@ -561,7 +561,8 @@ def run_caltrack_state(case):
 
     def run():
         cfg = dict(first=F.choose("first", list(CT.SPANS)), first_usage=F.choose("first_usage", ["present", "absent"]), second=F.choose("second", list(CT.SPANS)[:2]),
-                   second_usage=F.choose("second_usage", ["present", "absent"]), ctor_usage=F.choose("ctor_usage", ["absent", "with-zeros", "present"]), elec=F.choose("elec", [True, False]))
+                   second_usage=F.choose("second_usage", ["present", "absent"]), ctor_usage=F.choose("ctor_usage", ["absent", "with-zeros", "present"]), elec=F.choose("elec", [True, False]),
+                   holes=F.choose("holes", [False, True]))
         return cfg, caltrack_state_scenario(**cfg)
 
     paths = case.explore(run)
@@ -602,20 +603,30 @@ def run_interleave(case, fam):
 
 # ------------------------------------------------------------------ hourly model state across predict calls
 
-HM_FIRST = {"one week in June": ("2021-06-07", 7), "two days in January": ("2021-01-04", 2), "DST weekend": ("2021-03-12", 4)}
+HM_FIRST = {"late May into June": ("2021-05-28", 10), "one week in June": ("2021-06-07", 7), "two days in January": ("2021-01-04", 2), "DST weekend": ("2021-03-12", 4)}
 HM_SECOND = {"sixty days from January": ("2021-01-01", 60), "June and July": ("2021-06-01", 61)}
 
 
-def hourly_state_scenario(first, first_usage, second, second_usage, ghi):
+def hourly_state_scenario(first, first_usage, second, second_usage, ghi, table="complete"):
     """stored hourly model (every month x weekday known): predict(first set), then predict(second set); the model object
     must be what it was (state read from the live object) and the second prediction must be the one a freshly loaded
     model gives"""
     import logging
     logging.disable(logging.CRITICAL)
     from . import hourlyref as H
-    m = H.model()
+    # table: the (month, weekday) combinations the fitted cluster table knows; "no-june": a baseline that lacked June
+    months = range(1, 13) if table == "complete" else [mo for mo in range(1, 13) if mo != 6]
+    fresh = lambda: H.model(months=months)
+    m = fresh()
     s0 = H.state(m)
-    m.predict(H.reporting(*HM_FIRST[first], usage=first_usage, ghi=ghi))
+    try:
+        m.predict(H.reporting(*HM_FIRST[first], usage=first_usage, ghi=ghi))
+    except ValueError:
+        # a reporting set with usage that lies entirely in calendar combinations the model has no cluster for cannot be
+        # predicted at all (cdist on an empty table): not a question of side effects; the model must still be what it was
+        if H.state_diff(s0, H.state(m)) not in ([], ["warnings"]):
+            return [f"a predict() that raised changed the fitted model: {H.state_diff(s0, H.state(m))}"]
+        return []
     s1 = H.state(m)
     pr = []
     changed = H.state_diff(s0, s1)
@@ -627,7 +638,7 @@ def hourly_state_scenario(first, first_usage, second, second_usage, ghi):
     except Exception as ex:
         got = None
         pr.append(f"second predict ({second}) on the same model object raised {type(ex).__name__}: {str(ex)[:100]}")
-    want = H.model().predict(H.reporting(*HM_SECOND[second], seed=3, usage=second_usage))["predicted"].to_numpy(dtype=float)
+    want = fresh().predict(H.reporting(*HM_SECOND[second], seed=3, usage=second_usage))["predicted"].to_numpy(dtype=float)
     if got is not None and not (got.shape == want.shape and np.array_equal(got, want, equal_nan=True)):
         n = int((~((got == want) | (np.isnan(got) & np.isnan(want)))).sum()) if got.shape == want.shape else -1
         pr.append(f"prediction for {second} depends on the earlier predict of {first}: {n} of {len(want)} hours differ from a freshly loaded model")
@@ -635,7 +646,7 @@ def hourly_state_scenario(first, first_usage, second, second_usage, ghi):
 
 
 def replay_hourly_state(inp):
-    pr = hourly_state_scenario(inp["first"], inp["first_usage"], inp["second"], inp["second_usage"], inp["ghi"])
+    pr = hourly_state_scenario(inp["first"], inp["first_usage"], inp["second"], inp["second_usage"], inp["ghi"], inp.get("table", "complete"))
     known_only = bool(pr) and inp["ghi"] and all("['warnings']" in x for x in pr)
     return bool(pr), "; ".join(pr)
 
@@ -645,7 +656,8 @@ def run_hourly_state(case):
 
     def run():
         cfg = dict(first=F.choose("first", list(HM_FIRST)), first_usage=F.choose("first_usage", [True, False]),
-                   second=F.choose("second", list(HM_SECOND)), second_usage=F.choose("second_usage", [True, False]), ghi=F.choose("ghi", [False, True]))
+                   second=F.choose("second", list(HM_SECOND)), second_usage=F.choose("second_usage", [True, False]), ghi=F.choose("ghi", [False, True]),
+                   table=F.choose("table", ["complete", "no-june"]))
         return cfg, hourly_state_scenario(**cfg)
 
     paths = case.explore(run)
@@ -659,6 +671,7 @@ def run_hourly_state(case):
         case.prove(p, not pr, "predict() leaves the hourly model as it was, and a later prediction does not depend on earlier predict calls", replay=rp,
                    exclude=[("C02-hourly-ghi-warning-appended", z3.BoolVal(cfg["ghi"] and only_warning))])
         case.regime("hourly model: second predict after a shorter reporting set")
+        case.regime("hourly model whose cluster table lacks a month, reporting set with usage in that month", cfg["table"] == "no-june" and cfg["first_usage"])
     case.sample(dict(histories=len(paths)))
 
 
